@@ -164,6 +164,31 @@ class Judge:
                 "trivial": trivial}
 
 
+def _tail(key):
+    return key.split("]:", 1)[-1] if "]:" in key else key.split(":", 1)[-1]
+
+
+def _fold_same_as(J, reference_keys, what):
+    """Drop violations that repeat, item and discriminator alike, a failure
+    the reference object (the plainly constructed network) already shows:
+    one root cause, one key."""
+    tails = {_tail(k) for k in reference_keys}
+    keep = []
+    for v in J.viol:
+        if v["key"] not in reference_keys and _tail(v["key"]) in tails:
+            J.count(J.stats, what)
+        else:
+            keep.append(v)
+    J.viol = keep
+
+
+def _reference_failures(sp, net, **jkw):
+    """Keys a freshly built object would get (not reported here)."""
+    Jb = Judge(sp)
+    Jb.judge("Network", "__init__[adjacency=list]", ("ok", net), **jkw)
+    return {v["key"] for v in Jb.viol}
+
+
 # ---------------------------------------------------------------------------
 # family: constructor paths of Network
 
@@ -259,6 +284,12 @@ def fam_paths(case):
                 ("structure", "weights", "attrs"))
     else:
         J.count(J.excluded, "undirected_copy of an asymmetric network")
+    # every path ends in the adjacency / node_weights setters: what already
+    # fails on the plainest path (dense list) is reported there only
+    canon = "Network.__init__[adjacency=list]:"
+    _fold_same_as(J, {v["key"] for v in J.viol if v["key"].startswith(canon)},
+                  "path failures identical to the failure of the dense-list "
+                  "constructor (reported there)")
     return J.result()
 
 
@@ -368,6 +399,9 @@ def fam_files(case):
                lambda fn, fmt: base.save(fn, fmt),
                lambda ext: _fname("net", ext), sp,
                explain=_explained_by_fromigraph(J, sp))
+    _fold_same_as(J, _reference_failures(sp, base),
+                  "round-trip failures the saved object shows already "
+                  "(reported by the paths family)")
     return J.result()
 
 
@@ -398,7 +432,7 @@ def _same_grid(a, b):
         return False
 
 
-def fam_spatial(case):
+def _spatial(case):
     from pyunicorn.core import Grid, GeoGrid, SpatialNetwork, GeoNetwork, \
         Network
     from pyunicorn.climate import ClimateNetwork
@@ -445,7 +479,7 @@ def fam_spatial(case):
                        lambda fn, fmt: net.save(fn, fmt),
                        lambda ext: (_fname("sp", ext), _fname("sp", "grid")),
                        sp, fold=fold)
-        return J.result()
+        return J
     grid = GeoGrid(t, np.array(LATS[:n]), np.array([10.0 * i
                                                     for i in range(n)]),
                    silence_level=3)
@@ -492,7 +526,7 @@ def fam_spatial(case):
                        lambda fn, fmt: net.save(fn, fmt),
                        lambda ext: (_fname("geo", ext), _fname("geo", "grid")),
                        sp, fold=fold, groups=groups, weights=wexp, wtol=F32)
-        return J.result()
+        return J
     # climate: the network is the thresholded similarity matrix
     S = 0.9 * A + np.eye(n)
     res = outcome(lambda: _decorate(ClimateNetwork(
@@ -516,6 +550,18 @@ def fam_spatial(case):
                    lambda ext: (_fname("cl", ext), _fname("cl", "grid"),
                                 _fname("cl", "sim")),
                    sp, fold=fold, weights=wexp, wtol=F32)
+    return J
+
+
+def fam_spatial(case):
+    from pyunicorn.core import Network
+    J = _spatial(case)
+    sp = J.sp
+    ref = Network(adjacency=sp["A"], directed=sp["directed"],
+                  silence_level=3)
+    _fold_same_as(J, _reference_failures(sp, ref, groups=("structure",)),
+                  "failures the plainly constructed Network shows already "
+                  "(reported by the paths family)")
     return J.result()
 
 
